@@ -261,9 +261,17 @@ func (ex *Exec) applyContract(st *State, fr *Frame, x *ssa.Call, c *Contract, ke
 			if cc == nil || inst != nil {
 				continue
 			}
+			base := short[strings.LastIndex(short, ".")+1:]
+			ordSfx := fmt.Sprintf("#%d", ex.callOrdinal(fr, x))
 			for i := range cc.CallGhosts {
 				nm := cc.CallGhosts[i].Name
-				if nm == short+"."+g[0] || nm == short[strings.LastIndex(short, ".")+1:]+"."+g[0] {
+				// `callghost f#2.G = E` instantiates G at the second call of f only (ordinal among the calls of f in
+				// the calling function's text); it takes precedence over `callghost f.G = E`
+				if nm == short+ordSfx+"."+g[0] || nm == base+ordSfx+"."+g[0] {
+					inst = &cc.CallGhosts[i]
+					break
+				}
+				if nm == short+"."+g[0] || nm == base+"."+g[0] {
 					inst = &cc.CallGhosts[i]
 				}
 			}
